@@ -228,6 +228,13 @@ func (r *Run) requireEachSuccess(id, why string, f *ssa.Function, ctx core.Ctx, 
 		}
 		n++
 		ok := false
+		// the returned values themselves
+		for k, rv := range ri.Ret.Results {
+			if rv.Type().String() == "error" {
+				continue
+			}
+			ri.Facts[fmt.Sprintf("cmp(<result%d> == %s)", k, ff.TB.Of(rv))] = core.Fact{Kind: "cmp", Op: "==", A: &core.Term{Op: "result", Idx: k}, B: ff.TB.Of(rv)}
+		}
 		for i, a := range alts {
 			if _, m := core.MatchAll(ri.Facts, a, nil); m {
 				ok = true
@@ -247,4 +254,235 @@ func (r *Run) requireEachSuccess(id, why string, f *ssa.Function, ctx core.Ctx, 
 	}
 	r.R.Ok(id, rule, core.FuncName(f), r.where(f), why, fmt.Sprintf("%d success return(s), %d of %d alternatives used", n, len(used), len(alts)))
 	return true
+}
+
+// reachesAvoiding reports whether instruction `to` can be reached from
+// instruction `from` (same function) along live edges without taking an edge
+// for which avoid returns true. Blocks are entered at their beginning; if from
+// and to are in the same block, order within the block decides.
+func reachesAvoiding(ff *core.FnFacts, from, to ssa.Instruction, avoid func(a, b *ssa.BasicBlock) bool) bool {
+	fb, tb := from.Block(), to.Block()
+	if fb == tb {
+		for _, ins := range fb.Instrs {
+			if ins == from {
+				return true // from precedes to in the same block
+			}
+			if ins == to {
+				break
+			}
+		}
+	}
+	seen := map[*ssa.BasicBlock]bool{}
+	var dfs func(b *ssa.BasicBlock) bool
+	dfs = func(b *ssa.BasicBlock) bool {
+		for _, s := range b.Succs {
+			if !ff.IsLiveEdge(b, s) || avoid(b, s) {
+				continue
+			}
+			if s == tb {
+				return true
+			}
+			if seen[s] {
+				continue
+			}
+			seen[s] = true
+			if dfs(s) {
+				return true
+			}
+		}
+		return false
+	}
+	return dfs(fb)
+}
+
+// edgeHas reports whether the edge a->b carries a fact matching pat.
+func edgeHas(ff *core.FnFacts, a, b *ssa.BasicBlock, pat string) bool {
+	set := core.FactSet{}
+	for _, f := range ff.EdgeFacts(a, b) {
+		set[f.Key()] = f
+	}
+	return core.HasFact(set, pat)
+}
+
+// pathFacts unions the edge facts and in-block events along a path.
+func pathFacts(ff *core.FnFacts, path []*ssa.BasicBlock) core.FactSet {
+	set := core.FactSet{}
+	for i := 0; i+1 < len(path); i++ {
+		for _, f := range ff.EdgeFacts(path[i], path[i+1]) {
+			set[f.Key()] = f
+		}
+	}
+	return set
+}
+
+// requireEachSuccessPath: for a loop-free function, every entry→success-return
+// path must satisfy one of the alternative pattern lists (path-sensitive
+// disjunction; facts = edge facts along the path incl. callee summaries).
+func (r *Run) requireEachSuccessPath(id, why string, f *ssa.Function, ctx core.Ctx, alts ...[]string) bool {
+	if f == nil {
+		return false
+	}
+	ff := r.E.Facts(f, ctx)
+	var altStr []string
+	for _, a := range alts {
+		altStr = append(altStr, strings.Join(a, " ∧ "))
+	}
+	rule := "E2 path-sensitive: every entry→success path carries one of { " + strings.Join(altStr, " | ") + " }"
+	if hasCycle(f) {
+		r.R.Unk(id, rule, core.FuncName(f), r.where(f), why, "function is not loop-free")
+		return false
+	}
+	paths, complete := enumPaths(ff, 5000)
+	if !complete {
+		r.R.Unk(id, rule, core.FuncName(f), r.where(f), why, "too many paths")
+		return false
+	}
+	ei := f.Signature.Results().Len() - 1
+	n := 0
+	for _, p := range paths {
+		ret := p[len(p)-1].Instrs[len(p[len(p)-1].Instrs)-1].(*ssa.Return)
+		if ei >= 0 && isErrorTypeV(ret.Results[ei]) && !isNilConstV(ret.Results[ei]) {
+			// not provably nil: treat a returned call error as failure only when the path says so
+			pf := pathFacts(ff, p)
+			if !couldBeNil(ff, ret.Results[ei], pf) {
+				continue
+			}
+		}
+		n++
+		pf := pathFacts(ff, p)
+		ok := false
+		for _, a := range alts {
+			if _, m := core.MatchAll(pf, a, nil); m {
+				ok = true
+				break
+			}
+		}
+		if !ok {
+			r.R.Bad(id, rule, core.FuncName(f), r.P.Pos(ret.Pos()), why, "a path to the success return at "+r.P.Pos(ret.Pos())+" carries none of the alternatives")
+			return false
+		}
+	}
+	if n == 0 {
+		r.R.Unk(id, rule, core.FuncName(f), r.where(f), why, "no success path")
+		return false
+	}
+	r.R.Ok(id, rule, core.FuncName(f), r.where(f), why, fmt.Sprintf("%d success path(s) all carry an alternative", n))
+	return true
+}
+
+func isErrorTypeV(v ssa.Value) bool {
+	return v.Type().String() == "error"
+}
+
+// couldBeNil: an error value returned on a path is possibly nil unless the
+// path carries its fail fact or it is a non-nil constructor.
+func couldBeNil(ff *core.FnFacts, v ssa.Value, pf core.FactSet) bool {
+	t := ff.TB.Of(v)
+	var ct *core.Term
+	if t.Op == "err" && t.Args[0].Op == "call" {
+		ct = t.Args[0]
+	} else if t.Op == "call" {
+		ct = t
+	}
+	if ct == nil {
+		return true
+	}
+	if pf.Has((&core.Fact{Kind: "fail", A: ct}).Key()) {
+		return false
+	}
+	switch ct.Name {
+	case "errors.New", "fmt.Errorf", "github.com/pkg/errors.New", "github.com/pkg/errors.Errorf":
+		return false
+	}
+	return true
+}
+
+// effectSites returns the call sites in entry that reach (through at most
+// depth static calls inside the module) an interface call to one of the named
+// interface methods ("Iface.Method" dot-suffix names).
+func (r *Run) effectSites(entry *ssa.Function, depth int, names ...string) map[*ssa.Call]string {
+	out := map[*ssa.Call]string{}
+	var reaches func(f *ssa.Function, d int, seen map[*ssa.Function]bool) string
+	reaches = func(f *ssa.Function, d int, seen map[*ssa.Function]bool) string {
+		if f == nil || f.Blocks == nil || seen[f] {
+			return ""
+		}
+		seen[f] = true
+		for _, b := range f.Blocks {
+			for _, ins := range b.Instrs {
+				c, ok := ins.(*ssa.Call)
+				if !ok {
+					continue
+				}
+				key, _, _ := r.P.CalleeKey(c.Common())
+				for _, n := range names {
+					if core.NameMatches(key, n) {
+						return n
+					}
+				}
+				if d > 0 {
+					if sc := c.Common().StaticCallee(); sc != nil && r.P.IsSubject(sc) {
+						if n := reaches(sc, d-1, seen); n != "" {
+							return n
+						}
+					}
+				}
+			}
+		}
+		return ""
+	}
+	for _, b := range entry.Blocks {
+		for _, ins := range b.Instrs {
+			c, ok := ins.(*ssa.Call)
+			if !ok {
+				continue
+			}
+			key, _, _ := r.P.CalleeKey(c.Common())
+			hit := ""
+			for _, n := range names {
+				if core.NameMatches(key, n) {
+					hit = n
+				}
+			}
+			if hit == "" {
+				if sc := c.Common().StaticCallee(); sc != nil && r.P.IsSubject(sc) {
+					hit = reaches(sc, depth-1, map[*ssa.Function]bool{})
+				}
+			}
+			if hit != "" {
+				out[c] = hit
+			}
+		}
+	}
+	return out
+}
+
+// variadicElems resolves the elements packed into a variadic argument
+// (slice of a fresh array filled by stores); nil if v is not such a slice.
+func variadicElems(v ssa.Value) []ssa.Value {
+	sl, ok := v.(*ssa.Slice)
+	if !ok {
+		return nil
+	}
+	al, ok := sl.X.(*ssa.Alloc)
+	if !ok {
+		return nil
+	}
+	var out []ssa.Value
+	if refs := al.Referrers(); refs != nil {
+		for _, rf := range *refs {
+			ia, ok := rf.(*ssa.IndexAddr)
+			if !ok {
+				continue
+			}
+			if irefs := ia.Referrers(); irefs != nil {
+				for _, ir := range *irefs {
+					if st, ok := ir.(*ssa.Store); ok && st.Addr == ia {
+						out = append(out, st.Val)
+					}
+				}
+			}
+		}
+	}
+	return out
 }
